@@ -113,9 +113,9 @@ def run(chk):
     r = vplib.tlc_mc("KeyProofDeps", "KeyProofDeps.mc.cfg", timeout=600)
     chk.add_tlc(r, "KeyProofDeps", "KeyProofDeps.mc.cfg", "Sound, Honest over every set of zeroed commitments, every lie and every assignment of false relations")
     # without the nonzero guard (D29) / the tie of the multipliers (D33) / a group wide enough for squares of n-bit roots (D49, the code AS IT IS) / derived generators (D50)
-    for probe in ("KeyProofDeps.asis.cfg", "KeyProofDeps.asis2.cfg", "KeyProofDeps.asis3.cfg", "KeyProofDeps.asis4.cfg"):
+    for probe in ("KeyProofDeps.asis.cfg", "KeyProofDeps.asis2.cfg", "KeyProofDeps.asis3.cfg", "KeyProofDeps.asis4.cfg", "KeyProofDeps.asis5.cfg"):
         r = vplib.tlc("KeyProofDeps", probe, timeout=300, allow_fail=True)
-        if "Sound" not in r.invariant_violated:
+        if ("BranchHidden" if probe.endswith("asis5.cfg") else "Sound") not in r.invariant_violated:
             raise vplib.Machinery("KeyProofDeps: %s should violate Sound (vacuity)" % probe)
     g = vplib.tlc_mc("KeyProofDepsGen", "KeyProofDeps.gen.cfg", workers=1, timeout=600)
     scen = sorted(set(g.tagged_raw_json("K")))
